@@ -33,6 +33,28 @@ type HistInput struct {
 	Cap  int    `json:"cap"` // <0: constructor called without capacity
 	Ops  []HOp  `json:"ops"`
 	Obs  bool   `json:"obs"` // observe everything after every mutator
+	// Noise: settings that have nothing to say about the list behaviour, applied
+	// right after construction: 1 mutex, 2 id+category, 4 symbol+delimiter,
+	// 8 encapsulation, 16 log levels
+	Noise int `json:"noise,omitempty"`
+}
+
+func applyNoise(s stk.Stack, noise int) {
+	if noise&1 != 0 {
+		s.SetMutex()
+	}
+	if noise&2 != 0 {
+		s.SetID("noise").SetCategory("cat")
+	}
+	if noise&4 != 0 {
+		s.SetSymbol("&&").SetDelimiter(";")
+	}
+	if noise&8 != 0 {
+		s.SetEncap("'").SetEncap([]string{"[", "]"})
+	}
+	if noise&16 != 0 {
+		s.SetLogLevel("DEBUG", 4)
+	}
 }
 
 type aliasStack stk.Stack
@@ -340,6 +362,7 @@ func runHist(raw json.RawMessage) (res *Result, err error) {
 		return nil, err
 	}
 	h := &histRun{s: newStack(in.Kind, in.Cap), nested: map[int]any{}}
+	applyNoise(h.s, in.Noise)
 	var opTs, outTs []string
 	var recs []any
 	tags := map[string]bool{}
@@ -570,6 +593,9 @@ func randHist(r *Rng, maxOps int, stacks bool) HistInput {
 			in.Ops = append(in.Ops, HOp{Op: []string{"len", "isempty", "cap", "avail", "isfull"}[r.Intn(5)]})
 		}
 	}
+	if r.Pct(40) {
+		in.Noise = 1 + r.Intn(31)
+	}
 	return in
 }
 
@@ -744,6 +770,9 @@ func genNesting(ctx *Ctx, emit func(any, string)) {
 			}
 			in.Ops = append(in.Ops, HOp{Op: "cannest"}, HOp{Op: "isnesting"})
 		}
+		if r.Pct(40) {
+			in.Noise = 1 + r.Intn(31)
+		}
 		emit(in, "random")
 	}
 }
@@ -784,6 +813,9 @@ func genPolicy(ctx *Ctx, emit func(any, string)) {
 			default:
 				in.Ops = append(in.Ops, HOp{Op: "setopt", I: 256, T: r.Intn(3)})
 			}
+		}
+		if r.Pct(40) {
+			in.Noise = 1 + r.Intn(31)
 		}
 		emit(in, "random")
 	}
